@@ -332,7 +332,7 @@ func Failf(format string, a ...any) *Failure { return &Failure{Msg: fmt.Sprintf(
 func Rapid[C any](t *testing.T, r *Recorder, phase string, n int, gen func(*rapid.T) C, run func(C) *Failure) bool {
 	t.Helper()
 	flag.Set("rapid.checks", strconv.Itoa(n))
-	flag.Set("rapid.seed", strconv.FormatInt(r.seed+int64(Hash(phase)%1000)*7919, 10))
+	flag.Set("rapid.seed", strconv.FormatUint(uint64(r.seed)+(Hash(phase)%1000)*7919+1, 10))
 	flag.Set("rapid.nofailfile", "true")
 	os.RemoveAll("testdata/rapid")
 	var (
@@ -344,6 +344,9 @@ func Rapid[C any](t *testing.T, r *Recorder, phase string, n int, gen func(*rapi
 		rapid.Check(t, func(rt *rapid.T) {
 			c := gen(rt)
 			ran++
+			if ran <= 2 {
+				r.Sample(phase+"_first", c)
+			}
 			if f := run(c); f != nil {
 				cc := c
 				last, lastMsg = &cc, f.Msg
